@@ -346,7 +346,7 @@ pub fn run_history(cfg: &GenCfg, seed: u64, index: u64, rep: &mut Report) {
         sq_size,
         cq_size,
         direct: true,
-        pool: if needs_pool { Some((*rng.pick(&[1u16, 2, 4, 8]), 64)) } else { None },
+        pool: if needs_pool { Some((*rng.pick(&[1u16, 2, 4, 8]), [64u32, 64, 24, 100, 48][(index % 5) as usize])) } else { None },
         sq_start: starts(&mut rng),
         cq_start: starts(&mut rng),
         layout_seed: if cfg.randomize_layout { rng.next() | 1 } else { 0 },
